@@ -34,6 +34,11 @@ HAND = [
     "from t | select !{a} | sort a",
     "from t | join u (==k) | select {t.*, u.c} | take 2",
     "from t | select {t.*} | join u (==k) | select !{u.k}",
+    # a joined sub-pipeline that is itself a join of relations sharing column names; a let-bound scalar used in two pipelines
+    "from x | join (from a | join b (==id)) (x.id == a.id) | select {x.id, b.id}",
+    "from t | join (from u | join v = u (u.k == v.k)) (t.k == u.k) | select {t.k, v.c}",
+    "let c = 1 + 2\nfrom a | derive {p = c} | join (from b | derive {q = c}) (==id)",
+    "let c0 = 5\nfrom t | derive {p = c0 + a} | join (from u | derive {q = c0 + c} | select {k, q}) (==k) | select {t.k, p, q}",
     # a relation-valued function whose parameter is used twice
     "let twice = rel -> (rel | append rel)\nfrom t | select {k, a} | twice",
     "let top = n rel -> (rel | sort {-a} | take n)\nfrom t | top 2 | join (from u | top 1) (==k)",
